@@ -40,7 +40,7 @@ def main():
             'guard': 'spindalis_verif',
             'enable': 'RUSTFLAGS="--cfg spindalis_verif" (set by tools/lib.py when it builds harness/ against /repo)',
             'baseline_off_cmd': 'cd /repo && cargo test --workspace --no-fail-fast --offline',
-            'source_commits': [],
+            'source_commits': ['f9556e6'],
             'add_only': True,
         },
         'engines': [{
